@@ -3682,13 +3682,13 @@ func ruleRNG4(c *Ctx) []Ob {
 		return aval{K: aTag, Tag: types.Typ[types.Int64], C: constant.MakeInt64(v)}
 	}
 	nilErr := aval{K: aTag, Tag: nil}
-	emitMark := aval{K: aConst, C: constant.MakeString("EMIT")}
 	type tc struct {
 		reverse bool
 		r       absRange
 		cmp     int64
 		emit    bool
 		what    string
+		nearHas bool // the entry carries the encoded near bound (it equals the bound's value)
 	}
 	var cases []tc
 	for _, reverse := range []bool{false, true} {
@@ -3735,8 +3735,34 @@ func ruleRNG4(c *Ctx) []Ob {
 				if reverse {
 					dir = "descending"
 				}
-				cases = append(cases, tc{reverse, r, sign, inside, fmt.Sprintf("%s scan of %s, entry compares %d with the far bound (%s)", dir, r, sign, shape)})
+				cases = append(cases, tc{reverse, r, sign, inside, fmt.Sprintf("%s scan of %s, entry compares %d with the far bound (%s)", dir, r, sign, shape), false})
 			}
+		}
+		// the near bound: entries equal to an excluded near bound are skipped, all others are not
+		for _, shape := range []string{"open", "excluded", "included", "nil-only"} {
+			var r absRange
+			switch shape {
+			case "open":
+				r = absRange{0, 6, false, true}
+				if reverse {
+					r = absRange{2, 0, true, false}
+				}
+			case "excluded":
+				r = absRange{2, 6, false, true}
+				if reverse {
+					r = absRange{2, 6, true, false}
+				}
+			case "included":
+				r = absRange{2, 6, true, true}
+			case "nil-only":
+				r = absRange{0, 0, true, true}
+			}
+			dir := "ascending"
+			inside := int64(-1)
+			if reverse {
+				dir, inside = "descending", 1
+			}
+			cases = append(cases, tc{reverse, r, inside, shape != "excluded", fmt.Sprintf("%s scan of %s, the first entry equals the near bound (%s)", dir, r, shape), true})
 		}
 	}
 	isFuncParamCall := func(call *ssa.Call) bool {
@@ -3756,6 +3782,7 @@ func ruleRNG4(c *Ctx) []Ob {
 	for _, tcase := range cases {
 		tcase := tcase
 		lostCmp := false
+		nextSinceSeek, nearCalls := 0, 0
 		te := c.newTagEval()
 		te.heap = map[int64]map[int]aval{}
 		te.maxVisits = 2
@@ -3767,15 +3794,19 @@ func ruleRNG4(c *Ctx) []Ob {
 				return []aval{boolConst(true)}, true
 			case c.isInvokeOf(call, "store", "Cursor", "Item"):
 				return []aval{{}, nilErr}, true
-			case c.isInvokeOf(call, "store", "Cursor", "Seek"), c.isInvokeOf(call, "store", "Cursor", "Close"):
+			case c.isInvokeOf(call, "store", "Cursor", "Seek"):
+				nextSinceSeek, nearCalls = 0, 0
+				return []aval{nilErr}, true
+			case c.isInvokeOf(call, "store", "Cursor", "Close"):
 				return []aval{nilErr}, true
 			case c.isInvokeOf(call, "store", "Cursor", "Next"):
+				nextSinceSeek++
 				return []aval{}, true
 			case c.isInvokeOf(call, "store", "Tx", "Cursor"):
 				return []aval{{}, nilErr}, true
 			}
 			if isFuncParamCall(call) {
-				return []aval{emitMark}, true
+				return []aval{{K: aConst, C: constant.MakeString(fmt.Sprintf("EMIT:%d", nextSinceSeek))}}, true
 			}
 			full := calleeFullName(call)
 			switch full {
@@ -3813,7 +3844,12 @@ func ruleRNG4(c *Ctx) []Ob {
 						}
 					}
 				}
-				return []aval{boolConst(!nearBound)}, true
+				if nearBound {
+					// the first entry after the seek equals the near bound, the following ones do not
+					nearCalls++
+					return []aval{boolConst(tcase.nearHas && nearCalls == 1)}, true
+				}
+				return []aval{boolConst(true)}, true
 			case "errors.Is":
 				return []aval{{}}, true
 			}
@@ -3872,15 +3908,36 @@ func ruleRNG4(c *Ctx) []Ob {
 		}
 		outs := te.Eval(scan, args, 0)
 		emitted, panicked := false, ""
+		firstAt := -1
 		for _, oc := range outs {
 			if oc.Panic {
 				panicked = oc.Why
 			}
 			for _, v := range oc.Vals {
-				if v.K == aConst && v.C != nil && v.C.Kind() == constant.String && constant.StringVal(v.C) == "EMIT" {
+				if v.K == aConst && v.C != nil && v.C.Kind() == constant.String && strings.HasPrefix(constant.StringVal(v.C), "EMIT:") {
 					emitted = true
+					var k int
+					fmt.Sscanf(constant.StringVal(v.C), "EMIT:%d", &k)
+					if firstAt < 0 || k < firstAt {
+						firstAt = k
+					}
 				}
 			}
+		}
+		if tcase.nearHas && emitted {
+			// tcase.emit: the first entry (equal to the near bound) is delivered; otherwise it is skipped and the second one is
+			wantAt := 1
+			if tcase.emit {
+				wantAt = 0
+			}
+			if firstAt != wantAt {
+				if tcase.emit {
+					bad = tcase.what + ": the entry equal to the included near bound is skipped"
+				} else {
+					bad = tcase.what + ": the entry equal to the excluded near bound is handed to the consumer"
+				}
+			}
+			continue
 		}
 		switch {
 		case lostCmp:
@@ -3897,7 +3954,7 @@ func ruleRNG4(c *Ctx) []Ob {
 			}
 		}
 	}
-	key := c.fname(scan) + "/far-bound stop condition (24 cases)"
+	key := c.fname(scan) + "/stop condition and near-bound skip (32 cases)"
 	pos := relPath(c, scan.Pos())
 	switch {
 	case bad != "":
@@ -3905,7 +3962,7 @@ func ruleRNG4(c *Ctx) []Ob {
 	case undec != "":
 		o.add(UNDECIDED, key, pos, "%s", undec)
 	default:
-		o.add(OK, key, pos, "both directions x {open, excluded, included, nil-only} x {-1, 0, +1}: the entry reaches the consumer exactly when it lies inside the far bound")
+		o.add(OK, key, pos, "both directions x {open, excluded, included, nil-only} x {-1, 0, +1}: the entry reaches the consumer exactly when it lies inside the far bound; entries equal to the near bound are skipped exactly when that bound is excluded")
 	}
 	return softenUndecided(o.list)
 }
